@@ -105,13 +105,23 @@ static void report(const char *key, const unsigned char *in, size_t len, int ci,
     hb_free(&b);
 }
 
+/* every piece is offered from a buffer of its own that is scribbled over and released as soon as the call returns (an application's
+ * receive buffer does not outlive the call): bytes the parser wants later it must have copied */
+static void *piece_get(const unsigned char *src, size_t n) {
+    unsigned char *t = malloc(n ? n : 1);
+    if (t == NULL) abort();
+    memcpy(t, src, n);
+    return t;
+}
+static void piece_drop(void *t, size_t n) { memset(t, 0xDD, n); free(t); }
+
 static void run_one(const unsigned char *in, size_t len, int ci, const size_t *cuts, int ncuts, const pair *exp, int nexp) {
     n_eval++;
     htp_urlenp_t *p = htp_urlenp_create(txs[ci]);
     size_t prev = 0;
     for (int i = 0; i <= ncuts; i++) {
         size_t e = i < ncuts ? cuts[i] : len;
-        if (e > prev) htp_urlenp_parse_partial(p, in + prev, e - prev);
+        if (e > prev) { void *t = piece_get(in + prev, e - prev); htp_urlenp_parse_partial(p, t, e - prev); piece_drop(t, e - prev); }
         prev = e;
     }
     htp_urlenp_finalize(p);
@@ -165,7 +175,7 @@ static void run_e2e(const unsigned char *in, size_t len, int ci, const size_t *c
     size_t prev = 0;
     for (int i = 0; i <= ncuts; i++) {
         size_t e = i < ncuts ? cuts[i] : len;
-        if (e > prev) htp_connp_req_data(cp, &tv, in + prev, e - prev);
+        if (e > prev) { void *t = piece_get(in + prev, e - prev); htp_connp_req_data(cp, &tv, t, e - prev); piece_drop(t, e - prev); }
         prev = e;
     }
     htp_tx_t *tx = htp_list_get(cp->conn->transactions, 0);
